@@ -24,6 +24,7 @@ from exabgp.bgp.message.update.nlri.nlri import _UNPARSED, NLRI
 from exabgp.protocol.family import AFI, SAFI
 from exabgp.protocol.ip import IP
 from exabgp.util.types import Buffer
+from exabgp.logger import lazymsg, log
 
 
 class NLRICollection:
@@ -383,10 +384,13 @@ class MPNLRICollection:
             for packed_nlri in packed_nlris:
                 # Check if adding this NLRI would exceed maximum
                 if self._attr_len(len(payload) + len(packed_nlri)) > maximum:
-                    if len(payload) == header_length:
-                        raise RuntimeError('NLRI too large for attribute size limit')
-                    # Yield current payload and start new one
-                    yield self._attribute_header(self._CODE_MP_REACH_NLRI, len(payload)) + payload
+                    if len(payload) > header_length:
+                        # Yield current payload and start new one
+                        yield self._attribute_header(self._CODE_MP_REACH_NLRI, len(payload)) + payload
+                    if self._attr_len(header_length + len(packed_nlri)) > maximum:
+                        # this NLRI does not fit even alone: no oversized attribute, nothing more
+                        log.critical(lazymsg('update.pack.error reason=attributes_too_large'), 'parser')
+                        return
                     payload = header + packed_nlri
                 else:
                     payload = payload + packed_nlri
@@ -431,10 +435,13 @@ class MPNLRICollection:
         for packed_nlri in packed_nlris:
             # Check if adding this NLRI would exceed maximum
             if self._attr_len(len(payload) + len(packed_nlri)) > maximum:
-                if len(payload) == header_length:
-                    raise RuntimeError('NLRI too large for attribute size limit')
-                # Yield current payload and start new one
-                yield self._attribute_header(self._CODE_MP_UNREACH_NLRI, len(payload)) + payload
+                if len(payload) > header_length:
+                    # Yield current payload and start new one
+                    yield self._attribute_header(self._CODE_MP_UNREACH_NLRI, len(payload)) + payload
+                if self._attr_len(header_length + len(packed_nlri)) > maximum:
+                    # this NLRI does not fit even alone: no oversized attribute, nothing more
+                    log.critical(lazymsg('update.pack.error reason=attributes_too_large'), 'parser')
+                    return
                 payload = header + packed_nlri
             else:
                 payload = payload + packed_nlri
